@@ -40,6 +40,11 @@ package ecs
 //@   serves C01 C02 C09
 //@   requires indexInv(s) && uint64(table) < uint64(len(s.tables)) && uint64(len(s.entityPool.entities)) < 1<<32 - 1
 //@   requires s.tables[table].len < 1<<31
+//@   ensures  rows-other: forall t uint32, r uint32 :: __trigger(rowEnt(&s.tables[t])[r]) && (uint64(t) < uint64(len(s.tables)) && tableID(t) != table ==>
+//@        s.tables[t].len == old(s.tables[t].len) && s.tables[t].cap == old(s.tables[t].cap) && (r < s.tables[t].len ==> rowEnt(&s.tables[t])[r] == old(rowEnt(&s.tables[t])[r])))
+//@   ensures  rows-same: s.tables[table].len == old(s.tables[table].len) + 1 && rowEnt(&s.tables[table])[old(s.tables[table].len)] == result0
+//@        && (forall r uint32 :: __trigger(rowEnt(&s.tables[table])[r]) && (r < old(s.tables[table].len) ==> rowEnt(&s.tables[table])[r] == old(rowEnt(&s.tables[table])[r])))
+//@   ensures  index-kept: len(s.tables) == old(len(s.tables)) && (forall i uint32 :: __trigger(s.entities[i].row) && (uint64(i) < uint64(old(len(s.entities))) && entityID(i) != result0.id ==> s.entities[i] == old(s.entities[i])))
 //@   ensures  inv: indexInv(s)
 //@   ensures  fresh: !old(epIssued(&s.entityPool)[result0]) && epIssued(&s.entityPool)[result0] && alive(&s.entityPool, result0)
 //@   ensures  placed: s.entities[result0.id].table == table && s.entities[result0.id].row == result1 && result1 == old(s.tables[table].len)
